@@ -112,7 +112,7 @@ def hop_sets(L, D=None, rtol=0.0, absent_is_zero=True):
     for h, B in enumerate(best):
         for i in range(n):
             for j in range(n):
-                if np.isfinite(D[i, j]) and abs(B[i, j] - D[i, j]) <= rtol * max(1.0, abs(D[i, j])):
+                if np.isfinite(D[i, j]) and abs(B[i, j] - D[i, j]) <= rtol * abs(D[i, j]):
                     H[i][j].add(h)
     return H
 
@@ -120,7 +120,7 @@ def hop_sets(L, D=None, rtol=0.0, absent_is_zero=True):
 def _eq(a, b, rtol):
     if rtol == 0.0:
         return a == b
-    return abs(a - b) <= rtol * max(1.0, abs(b))
+    return abs(a - b) <= rtol * max(abs(a), abs(b))   # purely relative: lengths may be tiny
 
 
 def sp_counts(L, rtol=0.0):
@@ -168,6 +168,50 @@ def betweenness(L, rtol=0.0):
                 for v in range(n):
                     if u != v and L[u, v] != 0 and np.isfinite(D[v, t]) and _eq(D[s, u] + L[u, v] + D[v, t], D[s, t], rtol):
                         EBC[u, v] += sg[s, u] * sg[v, t] / sg[s, t]
+    return BC, EBC, D, sg
+
+
+def betweenness_fast(L, rtol=0.0):
+    """Same definition as betweenness(), vectorised (O(n^3) numpy): usable on a few hundred nodes."""
+    L = np.asarray(L, dtype=float)
+    n = len(L)
+    D = floyd(L)
+    E = L != 0
+    np.fill_diagonal(E, False)
+
+    def eq(a, b):
+        with np.errstate(invalid='ignore'):
+            if rtol == 0.0:
+                return a == b
+            return np.abs(a - b) <= rtol * np.maximum(np.abs(a), np.abs(b))
+    sg = np.zeros((n, n))
+    for s in range(n):
+        order = [v for v in np.argsort(D[s], kind='stable') if np.isfinite(D[s, v])]
+        sg[s, s] = 1
+        for v in order:
+            if v == s:
+                continue
+            m = E[:, v] & np.isfinite(D[s]) & eq(D[s] + L[:, v], D[s, v])
+            sg[s, v] = sg[s, m].sum()
+    BC = np.zeros(n)
+    EBC = np.zeros((n, n))
+    fin = np.isfinite(D)
+    for s in range(n):
+        reach = fin[s].copy()
+        reach[s] = False                                   # targets t != s reachable from s
+        with np.errstate(invalid='ignore', divide='ignore'):
+            M = fin[s][:, None] & fin & eq(D[s][:, None] + D, D[s][None, :]) & reach[None, :]   # M[v,t]
+            ratio = np.where(M, sg / np.where(sg[s] > 0, sg[s], 1)[None, :], 0.0)             # sigma(v,t)/sigma(s,t)
+        dep = ratio.sum(axis=1)                            # includes t == v (ratio 1/sigma(s,v))
+        inner = M.copy()
+        inner[np.arange(n), np.arange(n)] = False          # v strictly between: t != v
+        inner[s, :] = False
+        BC += sg[s] * np.where(inner, ratio, 0.0).sum(axis=1)
+        with np.errstate(invalid='ignore'):
+            Es = E & fin[s][:, None] & eq(D[s][:, None] + L, D[s][None, :])                     # Es[u,v]
+        dep_v = dep.copy()
+        dep_v[s] = 0.0
+        EBC += np.where(Es, sg[s][:, None] * dep_v[None, :], 0.0)
     return BC, EBC, D, sg
 
 
@@ -460,6 +504,10 @@ def selftest():
         BC, EBC, _, _ = betweenness(A)
         fin = np.isfinite(Db) & ~np.eye(n, dtype=bool)
         assert abs(BC.sum() - (Db[fin] - 1).sum()) < 1e-9, 'bc sum'
+        for LL in (A, L):
+            b1, e1, _, s1 = betweenness(LL)
+            b2, e2, _, s2 = betweenness_fast(LL)
+            assert np.allclose(b1, b2) and np.allclose(e1, e2) and np.array_equal(s1, s2), 'fast betweenness'
         assert abs(EBC.sum() - Db[fin].sum()) < 1e-9, 'ebc sum'
         # triangles vs trace(A^3)
         if not directed:
